@@ -185,7 +185,7 @@ INFO = {
     'rule': 'one case = one event history; non-trivial = a grant, release or disconnect was observed on it',
     'functions': ['db.shelve.comms.Worker.dataReceived', 'Worker.do', 'Worker._do_acquire', 'Worker._do_release', 'Worker.connectionLost',
                   'Worker._lock_db/_unlock_db', 'context.lock_db', 'context.unlock_db', 'db.lockview.TaskLockEngine.add_task'],
-    'bounds': {'quick': '2 clients, histories of <=8 events; the name each client gives in its acquire request is a solver variable over {a regular name, empty string, None}', 'thorough': '2 clients <=10 events; 3 clients <=7 events; names as in quick'},
+    'bounds': {'quick': '2 clients, histories of <=8 events; the name each client gives in its acquire request is a solver variable over {a regular name, empty string, None}', 'thorough': 'the quick configuration, plus 2 clients <=10 events and 3 clients <=7 events with regular names'},
     'assumptions': [
         'twisted LoopingCall / reactor.callLater replaced by fakes: start() runs the first tick at once (Twisted default now=True), later ticks and timers fire when the schedule says',
         'one acquire per connection and a release only after being told the lock is held (what comms.acquire/release do)',
@@ -198,19 +198,21 @@ INFO = {
 
 def obligations(tier):
     out = []
-    cfgs = [(2, 8)] if tier == 'quick' else [(2, 10), (3, 7)]
-    for n, k in cfgs:
+    cfgs = [(2, 8, True)] if tier == 'quick' else [(2, 8, True), (2, 10, False), (3, 7, False)]
+    for n, k, named in cfgs:
         nev = 4 * n + 1
         fix = 2
         free = [f'e{i}' for i in range(fix, k)]
-        nms = ['nm1']  # the first client's name is a literal partition, the second's a variable, a third client has a regular name
+        # the first client's name is a literal partition, the second's a variable, a third client has a regular name;
+        # the deeper thorough configurations use regular names only (9 name pairs x the deeper histories is out of reach)
+        nms = ['nm1'] if named else []
         sig = ', '.join(f'{v}: int' for v in nms + free)
         pre = [' and '.join([f'0 <= {v} < {len(NAMES)}' for v in nms] + [f'0 <= {v} < {nev}' for v in free])]
-        for nm0 in range(len(NAMES)):
+        for nm0 in range(len(NAMES) if named else 1):
             for b in range(nev):
                 # the first event is necessarily an ACQUIRE; symmetry: client 0 acquires first
                 out.append(ob.make(f'n{n}-k{k}-name{nm0}-0.{b}', f'n{n}', 'vp.harness.c13:body', sig, pre,
-                                   f"{{'n': {n}, 'k': {k}, 'sel': [0, {b}, {', '.join(free)}], 'nm': [{nm0}, {', '.join(nms)}]}}", timeout=900 if tier == 'quick' else 3000))
+                                   f"{{'n': {n}, 'k': {k}, 'sel': [0, {b}, {', '.join(free)}], 'nm': [{', '.join([str(nm0)] + nms)}]}}", timeout=900 if tier == 'quick' else 3000))
         allv = [f'e{i}' for i in range(k)]
         out.append(ob.make(f'n{n}-k{k}', f'n{n}', 'vp.harness.c13:body', ', '.join(f'{v}: int' for v in allv),
                            [' and '.join(f'0 <= {v} < {nev}' for v in allv)], f"{{'n': {n}, 'k': {k}, 'sel': [{', '.join(allv)}]}}", timeout=300, twin=True))
